@@ -27,8 +27,19 @@ claim("C18", "other", "CFG reachability / dominance and backward slices on the M
       "Decides the exit-status, failure-reporting, no-output-on-failed-build, default-path and content clauses as path facts on main(): every failure edge must pass process::exit(non-zero) or a panic before a normal return; every file-creating call must be dominated by the build's success edge; writer arguments are traced back to the option fields, the '.hex'/'.eep.hex' constants and this run's BuildResult. Covers all inputs and fault sequences because the clauses are control-flow shape, not data.",
       "Not decided: structopt option parsing, real file-system behaviour, whether an empty flash image must still produce a file. Trusted: process::exit/panic semantics, rustc MIR.")
 
+claim("C01", "proof", "path-sensitive bit-provenance dataflow (abstract interpretation of MIR, symbolic operands) over every acyclic path of the encoder, compared with an independent ISA table",
+      "Every successful path of instruction::process is explored with the operands kept symbolic, so one path stands for all operand values in its value sets; the emitted bytes are compared bit for bit with the ISA pattern of the matching row (opcode bits, every field bit = the right bit of the right operand, low byte first, word count) and every legal operand value must be accepted. 160 ISA rows x direct/alias operand kinds; all ~10^5 one-word tuples and the 16/22-bit address spaces are covered without enumeration of the repository code.",
+      "Trusted: rustc MIR, spec/avr_isa.json, E1 transfer functions + summaries. Expr::run is opaque (C05). Not decided: that pass 0/1 hand the parsed operands to pass 2 unchanged.", engine="E0+E1+E2")
+claim("C03", "proof", "linear-form and value-set dataflow on the displacement term of every relative instruction path; def-use/dominance of pc in pass 2",
+      "For the 22 relative forms the displacement term found on the path must be exactly target - current_address - 1 as a linear form, its accepted value set on Ok paths exactly the field range (everything else leaves through Err), and the field the low bits of that term at the ISA position; pass 2 must store `pc` from the same counter it passes as current_address, before encoding. Covers every distance in both directions because target and address are symbols.",
+      "Assumes C02 (label values) and C05 (expression values). Trusted: rustc MIR, sx.linear.", engine="E0+E1+E3")
+claim("C04", "proof", "value-set dataflow over every acyclic path of the encoder: accepted operand set ⊆ legal set, operand kind and count as path facts",
+      "For every (ISA row, operand kind) group the union of the operand value sets that reach an Ok return must be contained in the row's legal set; an Ok path with operand kinds no ISA form has, or one that does not pin the operand count, is a violation. Operand symbols range over all of i64, so negative and absurd values are covered; the ~40 guards are each a branch the exploration must take.",
+      "Trusted: rustc MIR, spec/avr_isa.json, E1 value-set refinement. Expr::run opaque.", engine="E0+E1")
+
 ENGINES = [
     {"name": "E0 fact driver", "path": "driver/", "serves_properties": sorted(P), "kind_free_text": "rustc_private driver (RUSTC_WORKSPACE_WRAPPER) dumping callee-resolved MIR, ADT/static/impl tables of /repo's two crates as JSON"},
+    {"name": "E1 abstract interpreter", "path": "analysis/absint.py", "serves_properties": ["C01", "C02", "C03", "C04", "C05", "C06", "C08", "C12", "C13"], "kind_free_text": "path-sensitive abstract interpretation of MIR: named unknowns, value sets, bit provenance, linear forms; no solver, no execution of /repo"},
     {"name": "E3 graphs", "path": "analysis/graph.py", "serves_properties": ["C15", "C16", "C17", "C18", "C11", "C09"], "kind_free_text": "call graph over resolved callees (virtual/default/fmt/vtable edges), CFG, dominators, reachability"},
 ]
 
